@@ -336,6 +336,13 @@ Theorem C20_matrix_cell : forall e final mf m, mfile_ok mf = true ->
 Proof. exact matrix_cell. Qed.
 Print Assumptions C20_matrix_cell.
 
+(* a chain of n symbolic links ending in a regular file is followed iff n <= 40 (Linux); beyond that the name decides *)
+Theorem C20_fs_link_chain : forall d x n c, chain d x n c ->
+  (forall fuel, fs_file fuel d x = if Nat.ltb n fuel then Some c else None) /\
+  submat_fs d x = if Nat.leb n 40 then submat_file c else submat_name x.
+Proof. exact (fun d x n c H => conj (fs_chain d x n c H) (fs_chain_submat d x n c H)). Qed.
+Print Assumptions C20_fs_link_chain.
+
 (* non-vacuity: a user file with a comment, a blank line, CRLF line ends, an integer row and a decimal row *)
 Example C20_witness :
   wf_content (unhex (bs "2320630d0a0d0a2020412020420d0a412020312020322e350d0a42092d3209370d0a"%bs)) = true /\
@@ -424,3 +431,6 @@ Example C20_witness_path : path_norm [] = bs "."%bs /\ path_norm (bs "a//b/./c/"
   path_norm (bs "//x"%bs) = bs "//x"%bs /\ path_norm (bs "///x/."%bs) = bs "/x"%bs /\ path_norm (bs "./."%bs) = bs "."%bs /\
   path_norm (bs "x/../blosum62"%bs) = bs "x/../blosum62"%bs.
 Proof. exact path_witness. Qed.
+Example C20_witness_chain :
+  chain [(bs "nuc"%bs, FLink (bs "t"%bs)); (bs "t"%bs, FReg (bs "X"%bs))] (bs "nuc"%bs) 1 (bs "X"%bs).
+Proof. exact chain_witness. Qed.
